@@ -25,6 +25,8 @@
 (*   <<"closure",kind,<<ast..>>>> <<"call",kind,name,args>>                *)
 (*   <<"anyo",g>> <<"conda",first,rest,next>> <<"condu",first,rest,next>>  *)
 (*   <<"project",kind,ids,<<ast..>>>> <<"everyg",kind,id,coll,clauses>>    *)
+(*   <<"reified",g,q>> <<"reifyD",q>> <<"forceans",t>> <<"fdtail">>        *)
+(*   (state::reified, reify, force_ans, enforce_constraints_fd)            *)
 (* Streams: <<"empty">> <<"unit",st>> <<"lazy",lz>> <<"cons",st,lz>>       *)
 (* Lazies:  <<"bind",lz,g>> <<"mplus",l1,l2>> <<"pause",st,g>>             *)
 (*          <<"bindD",lz,g>> <<"mplusD",l1,l2>> <<"pauseD",st,g>>          *)
@@ -76,6 +78,26 @@ CommitFrom(tag, cls) ==
                ELSE <<tag, Build("b", cls[i][1]), FromArray("b", BuildAll("b", Tail(cls[i]))), Go(i + 1)>>
   IN Go(1)
 
+(* The goal built by proto_vulcan_query! (macros/src/lib.rs, Query::to_tokens):
+     Fresh([__query__], reified(Conj[__query__ == [q1, ..], Conj[body..]], __query__))
+   and by the conformance harness, which appends a probe fngoal after reified (harness/src/build.rs,
+   query_goal).  V(0) is __query__. *)
+QueryGoalOf(qvars, body) ==
+  LET qs == [i \in 1..Len(qvars) |-> V(qvars[i])]
+      inner == FromArray("b", << <<"atom", <<"eq", V(0), ListOf(qs)>> >>,
+                                 FromArray("b", BuildAll("b", ElabGs(body))) >>)
+  IN <<"fresh", FromArray("b", << <<"reified", inner, V(0)>>, <<"atom", <<"succeed">> >> >>)>>
+
+(* reify(x) = [enforce_constraints(x), fngoal ..]; enforce_constraints(x) =
+   [enforce_constraints_fd(x), U::enforce_constraints(x)] with the default (succeed) user hook;
+   enforce_constraints_fd(x) = [force_ans(x), fngoal { .. onceo { force_ans(keys) } }].  The last
+   fngoal of reify (substitution reification, store replacement) does not branch and is the identity
+   at this level. *)
+ReifyGoal(q) ==
+  LET fd == FromArray("b", << <<"forceans", q>>, <<"fdtail">> >>)
+      enforce == FromArray("b", <<fd, Succeed>>)
+  IN FromArray("b", <<enforce, <<"atom", <<"succeed">> >> >>)
+
 Build(k, g) ==
   CASE g[1] = "succeed" -> Succeed
     [] g[1] = "fail" -> FailG
@@ -98,6 +120,7 @@ Build(k, g) ==
     [] g[1] = "call" -> <<"call", k, g[2], g[3]>>
     [] g[1] = "project" -> <<"project", k, g[2], g[3]>>
     [] g[1] = "for" -> <<"everyg", k, g[2], g[3], g[4]>>
+    [] g[1] = "query" -> QueryGoalOf(g[2], g[3])
     [] g[1] = "dom" /\ Norm(g[2])[1] \in {"nil", "cons"} ->
          LET es == Elems(Norm(g[2])) IN
          FromArray(k, [i \in 1..Len(es) |-> <<"atom", <<"dom", es[i], g[3]>> >>])
@@ -227,6 +250,28 @@ Solve(g, st, fuel, D) ==
     [] g[1] = "everyg" ->
          LET gs == [i \in 1..Len(g[4]) |-> FromConjunctions(g[2], SubstCl(g[5], (V(g[3]) :> g[4][i])))]
          IN Solve(FromIter(g[2], gs), st, fuel, D)
+    (* state::reified: the answers of g are bound DEPTH-FIRST to the reification, which is a finite
+       search: they are reified one after the other in the order in which g produces them *)
+    [] g[1] = "reified" ->
+         LET r == Solve(g[2], st, fuel, D) IN Res(SBindD(r.s, <<"reifyD", g[3]>>), r.t, r.cut)
+    [] g[1] = "reifyD" -> Solve(ReifyGoal(g[2]), st, fuel, D)
+    (* force_ans: a domain variable is labelled through map_sum (values in ascending order, built
+       like a conde from the last value to the first); lists and compounds element by element *)
+    [] g[1] = "forceans" ->
+         LET w == Walk(g[2], st.smap) IN
+         IF IsVar(w) /\ w \in DOMAIN st.ds
+         THEN LET vals == SortSeq(SetToSeq(st.ds[w]), LAMBDA a, b : a < b) IN
+              SolveConde([i \in 1..Len(vals) |-> <<"atom", <<"eq", Num(vals[i]), w>> >>], st, fuel, D, FALSE)
+         ELSE IF w[1] = "cons"
+         THEN Solve(FromArray("b", << <<"forceans", w[2]>>, <<"forceans", w[3]>> >>), st, fuel, D)
+         ELSE IF w[1] = "cmp"
+         THEN Solve(FromArray("b", [i \in 1..Len(w[3]) |-> <<"forceans", w[3][i]>>]), st, fuel, D)
+         ELSE Res(Unit(st), 0, FALSE)
+    (* the second fngoal of enforce_constraints_fd: onceo { force_ans(list of the domain variables) };
+       the library lists them in hash order, the specification in sorted order *)
+    [] g[1] = "fdtail" ->
+         Solve(<<"condu", FromArray("b", <<FromArray("b", << <<"forceans", ListOf(SetToSeq(DOMAIN st.ds))>> >>)>>),
+                 Succeed, FailG>>, st, fuel, D)
 
 (* StreamEngine::step *)
 Step(lz, fuel, D) ==
